@@ -789,9 +789,15 @@ def _worker_init() -> None:
     This function gets passed as an initializer to `multiprocessing.Pool`
     to set the logger level locally on the workers
 
+    Forked workers also inherit a copy of the parent's random number generator state,
+    so each worker is re-seeded here. Otherwise, every worker would produce the same
+    sequence of random numbers and sampled simulations run on different workers would
+    be identical to each other.
+
     """
 
     logger.setLevel(logging.WARNING)
+    np.random.seed()
 
 
 def parallel_progress(fcn, inputs, num_workers=None, show_progress=True) -> list:
